@@ -1,1 +1,56 @@
 use super::*;
+use crate::verif_common::*;
+
+//@ prop: C14, C07
+//@ tier: experimental
+//@ clause: json_pointer::parse yields exactly the RFC 6901 unescaped reference tokens of a well-formed pointer (the tokenizer behind struct dispatch and eval_json_pointer)
+//@ funcs: json_pointer::parse
+//@ symbolic: pointer of <= 3 bytes over {'/','~','0','1','a'}, well-formed ('/'-prefixed or empty, every '~' followed by 0/1)
+//@ bounds: |pointer| <= 3; unwind 8
+//@ oracle: byte-loop RFC 6901 tokenizer ("/" is one empty token in this dialect)
+//@ stubs: none
+//@ timeout: 3000
+#[kani::proof]
+#[kani::unwind(8)]
+fn c14_json_pointer_parse_rfc6901() {
+    let p = SymStr::<3>::any(&[b'/', b'~', b'0', b'1', b'a']);
+    kani::assume(p.len == 0 || p.buf[0] == b'/');
+    // reference tokens
+    let b = p.bytes();
+    let mut count = 0usize;
+    let mut lens = [0usize; 4];
+    let mut bytes = [[0u8; 4]; 4];
+    let mut ok = true;
+    if !b.is_empty() {
+        count = 1;
+        let mut i = 1;
+        while i < b.len() {
+            let c = b[i];
+            let k = count - 1;
+            if c == b'/' {
+                count += 1;
+            } else if c == b'~' {
+                if i + 1 < b.len() && (b[i + 1] == b'0' || b[i + 1] == b'1') {
+                    bytes[k][lens[k]] = if b[i + 1] == b'0' { b'~' } else { b'/' };
+                    lens[k] += 1;
+                    i += 1;
+                } else {
+                    ok = false;
+                }
+            } else {
+                bytes[k][lens[k]] = c;
+                lens[k] += 1;
+            }
+            i += 1;
+        }
+    }
+    kani::assume(ok);
+    let toks = parse(p.as_str());
+    assert!(toks.len() == count, "token count differs from RFC 6901");
+    let mut i = 0;
+    while i < count {
+        assert!(bytes_eq(toks[i].as_bytes(), &bytes[i][..lens[i]]), "token differs from RFC 6901");
+        i += 1;
+    }
+    std::mem::forget(toks);
+}
